@@ -368,4 +368,251 @@ Proof.
       constructor; [|apply Forall_skipn; exact Hpos].
       unfold slen. rewrite Hs'. pose proof (skipn_length (length cando0) (sbytes s)). unfold slen in *. lia.
 Qed.
+
+Lemma sbytes_slice_some s o n : sbytes (slice s o (Some n)) = firstn n (skipn o (sbytes s)).
+Proof. destruct s; reflexivity. Qed.
+Lemma sbytes_slice_none s o : sbytes (slice s o None) = skipn o (sbytes s).
+Proof. destruct s; reflexivity. Qed.
+
+(* ---- split a non-writable segment: 0 < soff < len(cur) ---- *)
+Lemma ws_split_ok fn p data :
+  WF fn -> valid fn p -> data <> [] ->
+  idx p < length (segs fn) -> 0 < soff p -> soff p < slen (nthseg (segs fn) (idx p)) ->
+  step_ok fn p data (ws_split fn p (firstn mb data)).
+Proof.
+  intros [Hsz Hpos] [Hoff _] Hd Hi Hso0 Hso.
+  unfold ws_split, step_ok. cbv zeta.
+  destruct (cando_facts data mb Hd mb_pos) as (Hc1 & Hc2 & Hc3).
+  set (cando0 := firstn mb data) in *.
+  set (l := segs fn) in *. set (cur := idx p) in *.
+  set (s := nthseg l cur) in *.
+  assert (Hpa : pre_len l cur <= pre_len l (S cur)) by (apply pre_len_le; lia).
+  assert (Hpb : pre_len l (S cur) <= length (content fn)) by (apply pre_len_bound; lia).
+  assert (HW := window_is_seg l cur Hi). fold s in HW.
+  assert (HS := pre_len_S l cur Hi). fold s in HS.
+  assert (Hlen_s : slen s = length (sbytes s)) by reflexivity.
+  destruct (slen s - soff p <=? length cando0) eqn:E3.
+  - (* the rest of cur is overwritten completely *)
+    apply Nat.leb_le in E3.
+    set (cando := firstn (slen s - soff p) cando0).
+    assert (Hlc : length cando = slen s - soff p) by (unfold cando; rewrite firstn_length; lia).
+    assert (Hc3' : firstn (length cando) data = cando) by (unfold cando, cando0; apply firstn_firstn_data).
+    rewrite ptr_after_off. split; [lia|]. rewrite Hc3'.
+    assert (Hcont : flat_map sbytes (firstn cur l ++ [slice s 0 (Some (soff p)); Mem cando] ++ skipn (S cur) l)
+                    = overwrite (content fn) (off p) cando).
+    { rewrite content_splice. cbn [flat_map sbytes]. rewrite app_nil_r.
+      rewrite sbytes_slice_some. cbn [skipn].
+      rewrite Hoff. rewrite (overwrite_window (content fn) (pre_len l cur) (pre_len l (S cur))); try lia.
+      unfold content. fold l. rewrite HW. unfold overwrite.
+      assert (Hge : length (sbytes s) <= soff p + length cando) by lia.
+      rewrite (skipn_all2 (sbytes s) Hge). rewrite app_nil_r. reflexivity. }
+    split; [exact Hcont|]. split; [|reflexivity].
+    split; cbn [segs size].
+    + unfold content at 1; cbn [segs]. rewrite Hcont. unfold overwrite.
+      rewrite !app_length, firstn_length. pose proof (skipn_length (off p + length cando) (content fn)).
+      assert (off p + length cando <= length (content fn)) by lia. lia.
+    + apply Forall_app; split; [apply Forall_firstn; exact Hpos|].
+      constructor.
+      { unfold slen. rewrite sbytes_slice_some. cbn [skipn]. rewrite firstn_length. lia. }
+      constructor; [unfold slen; cbn [sbytes]; lia|apply Forall_skipn; exact Hpos].
+  - (* cur is split in three *)
+    apply Nat.leb_gt in E3.
+    rewrite ptr_after_off. split; [lia|]. rewrite Hc3.
+    assert (Hcont : flat_map sbytes (firstn cur l ++ [slice s 0 (Some (soff p)); Mem cando0;
+                                     slice s (soff p + length cando0) None] ++ skipn (S cur) l)
+                    = overwrite (content fn) (off p) cando0).
+    { rewrite content_splice. cbn [flat_map sbytes]. rewrite app_nil_r.
+      rewrite sbytes_slice_some, sbytes_slice_none. cbn [skipn].
+      rewrite Hoff. rewrite (overwrite_window (content fn) (pre_len l cur) (pre_len l (S cur))); try lia.
+      unfold content. fold l. rewrite HW. unfold overwrite. rewrite <- !app_assoc. reflexivity. }
+    split; [exact Hcont|]. split; [|reflexivity].
+    split; cbn [segs size].
+    + unfold content at 1; cbn [segs]. rewrite Hcont. unfold overwrite.
+      rewrite !app_length, firstn_length. pose proof (skipn_length (off p + length cando0) (content fn)).
+      assert (off p + length cando0 <= length (content fn)) by lia. lia.
+    + apply Forall_app; split; [apply Forall_firstn; exact Hpos|].
+      constructor.
+      { unfold slen. rewrite sbytes_slice_some. cbn [skipn]. rewrite firstn_length. lia. }
+      constructor; [unfold slen; cbn [sbytes]; lia|].
+      constructor; [|apply Forall_skipn; exact Hpos].
+      unfold slen. rewrite sbytes_slice_none. pose proof (skipn_length (soff p + length cando0) (sbytes s)). lia.
+Qed.
+
+Lemma pre_len_add l a k : pre_len l (a + k) = pre_len l a + pre_len (skipn a l) k.
+Proof.
+  unfold pre_len. revert l. induction a as [|a IH]; intros l; cbn [Nat.add skipn firstn flat_map length].
+  - reflexivity.
+  - destruct l as [|s l]; cbn [firstn flat_map skipn].
+    + rewrite !firstn_nil. reflexivity.
+    + rewrite !app_length. rewrite IH. lia.
+Qed.
+
+Lemma window_content l a b :
+  a <= b ->
+  firstn (pre_len l b - pre_len l a) (skipn (pre_len l a) (flat_map sbytes l))
+  = flat_map sbytes (firstn (b - a) (skipn a l)).
+Proof.
+  intros Hab. replace b with (a + (b - a)) at 1 by lia. rewrite pre_len_add.
+  replace (pre_len l a + pre_len (skipn a l) (b - a) - pre_len l a) with (pre_len (skipn a l) (b - a)) by lia.
+  rewrite skipn_content. apply firstn_content.
+Qed.
+
+Lemma skipn_cons_nth l i : i < length l -> skipn i l = nthseg l i :: skipn (S i) l.
+Proof.
+  revert i. induction l as [|s l IH]; intros i Hi; cbn [length] in Hi; [lia|].
+  destruct i; [reflexivity|]. cbn [skipn]. rewrite IH by lia. reflexivity.
+Qed.
+
+Lemma nth_firstn_lt {A} (l : list A) n i d : i < n -> nth i (firstn n l) d = nth i l d.
+Proof.
+  revert n i. induction l as [|a l IH]; intros n i H.
+  - rewrite firstn_nil. reflexivity.
+  - destruct n; [lia|]. destruct i; [reflexivity|]. cbn [firstn nth]. apply IH. lia.
+Qed.
+
+Lemma window_two l i :
+  S i < length l ->
+  firstn (pre_len l (S (S i)) - pre_len l i) (skipn (pre_len l i) (flat_map sbytes l))
+  = sbytes (nthseg l i) ++ sbytes (nthseg l (S i)).
+Proof.
+  intros Hi. rewrite window_content by lia.
+  replace (S (S i) - i) with 2 by lia.
+  rewrite (skipn_cons_nth l i) by lia. rewrite (skipn_cons_nth l (S i)) by lia.
+  cbn [firstn flat_map]. rewrite app_nil_r. reflexivity.
+Qed.
+
+(* ---- grow the previous memSegment ---- *)
+Lemma ws_grow_prev_ok fn p data prev :
+  WF fn -> valid fn p -> data <> [] ->
+  idx p = S prev -> S prev <= length (segs fn) -> soff p = 0 ->
+  is_mem (nthseg (segs fn) prev) = true -> slen (nthseg (segs fn) prev) < mb ->
+  step_ok fn p data (ws_grow_prev mb fn p (firstn mb data)).
+Proof.
+  intros [Hsz Hpos] [Hoff _] Hd Hcur Hle Hso Hmem Hroom.
+  unfold ws_grow_prev, adjust_cur, step_ok. cbv zeta.
+  rewrite Hcur. cbn [pred].
+  set (l := segs fn) in *.
+  set (ps := nthseg l prev) in *.
+  set (cando1 := firstn (mb - slen ps) (firstn mb data)).
+  assert (Hc1 : 1 <= length cando1).
+  { unfold cando1. rewrite !firstn_length. destruct data; [congruence|]. cbn [length]. lia. }
+  assert (Hc3 : firstn (length cando1) data = cando1) by apply firstn_firstn_data.
+  assert (Hlen : length cando1 <= length data) by (rewrite <- Hc3 at 1; rewrite firstn_length; lia).
+  assert (Hprev_lt : prev < length l) by lia.
+  assert (HSp := pre_len_S l prev Hprev_lt). fold ps in HSp.
+  assert (Hoff' : off p = pre_len l prev + slen ps) by (rewrite Hoff, Hcur, Hso, HSp; lia).
+  assert (Hps : sbytes ps = sbytes ps) by reflexivity.
+  destruct (S prev =? length l) eqn:E2.
+  - (* ptr at EOF: the last segment grows *)
+    apply Nat.eqb_eq in E2.
+    rewrite ptr_after_off. split; [lia|]. rewrite Hc3.
+    assert (Hcont : flat_map sbytes (set_nth l prev (Mem (sbytes (nthseg l prev) ++ cando1)))
+                    = overwrite (content fn) (off p) cando1).
+    { rewrite set_nth_content by auto. cbn [sbytes]. fold ps.
+      assert (Hk : skipn (S prev) l = []) by (apply skipn_all2; lia).
+      rewrite Hk. cbn [flat_map]. rewrite app_nil_r.
+      assert (Hall : off p = length (content fn)).
+      { rewrite Hoff'. rewrite <- HSp. unfold content. fold l. apply pre_len_all. lia. }
+      rewrite Hall, overwrite_at_end.
+      unfold content. fold l. rewrite (content_split l prev Hprev_lt). fold ps. rewrite Hk. cbn [flat_map].
+      rewrite app_nil_r. rewrite app_assoc. reflexivity. }
+    split; [exact Hcont|]. split; [|reflexivity].
+    split; cbn [segs size].
+    + unfold content at 1; cbn [segs]. rewrite Hcont. unfold overwrite.
+      rewrite !app_length, firstn_length. pose proof (skipn_length (off p + length cando1) (content fn)).
+      assert (off p = length (content fn)).
+      { rewrite Hoff'. rewrite <- HSp. unfold content. fold l. apply pre_len_all. lia. }
+      lia.
+    + apply Forall_set_nth; auto. unfold slen. cbn [sbytes]. rewrite app_length. lia.
+  - apply Nat.eqb_neq in E2.
+    assert (Hcur_lt : S prev < length l) by lia.
+    set (s := nthseg l (S prev)) in *.
+    assert (HSc := pre_len_S l (S prev) Hcur_lt). fold s in HSc.
+    assert (HW := window_two l prev Hcur_lt). fold ps in HW. fold s in HW.
+    assert (Hpa : pre_len l prev <= pre_len l (S (S prev))) by (apply pre_len_le; lia).
+    assert (Hpb : pre_len l (S (S prev)) <= length (content fn)) by (apply pre_len_bound; lia).
+    assert (Hs : 0 < slen s).
+    { rewrite Forall_forall in Hpos. apply Hpos. apply nthseg_in; auto. }
+    destruct (slen s <=? length cando1) eqn:E3.
+    + (* cur disappears *)
+      apply Nat.leb_le in E3.
+      set (cando := firstn (slen s) cando1).
+      assert (Hlc : length cando = slen s) by (unfold cando; rewrite firstn_length; lia).
+      assert (Hc3' : firstn (length cando) data = cando).
+      { unfold cando, cando1. rewrite firstn_firstn. apply firstn_firstn_data. }
+      set (l1 := firstn (S prev) l ++ skipn (S (S prev)) l).
+      assert (Hn1 : nthseg l1 prev = ps).
+      { unfold l1, ps, nthseg. rewrite app_nth1 by (rewrite firstn_length; lia).
+        apply nth_firstn_lt. lia. }
+      rewrite Hn1.
+      rewrite ptr_after_off. split; [lia|]. rewrite Hc3'.
+      assert (Hl2 : set_nth l1 prev (Mem (sbytes ps ++ cando))
+                    = firstn prev l ++ [Mem (sbytes ps ++ cando)] ++ skipn (S (S prev)) l).
+      { unfold set_nth, l1.
+        assert (A : firstn prev (firstn (S prev) l ++ skipn (S (S prev)) l) = firstn prev l).
+        { rewrite firstn_app. rewrite firstn_firstn. replace (Nat.min prev (S prev)) with prev by lia.
+          rewrite firstn_length. replace (prev - Nat.min (S prev) (length l)) with 0 by lia.
+          cbn [firstn]. apply app_nil_r. }
+        assert (B : skipn (S prev) (firstn (S prev) l ++ skipn (S (S prev)) l) = skipn (S (S prev)) l)
+          by (apply skipn_app_exact; rewrite firstn_length; lia).
+        rewrite A, B. reflexivity. }
+      assert (Hcont : flat_map sbytes (set_nth l1 prev (Mem (sbytes ps ++ cando)))
+                      = overwrite (content fn) (off p) cando).
+      { rewrite Hl2, content_splice. cbn [flat_map sbytes]. rewrite app_nil_r.
+        rewrite Hoff'. rewrite (overwrite_window (content fn) (pre_len l prev) (pre_len l (S (S prev)))); try lia.
+        unfold content. fold l. rewrite HW. unfold overwrite, slen.
+        rewrite firstn_app. rewrite firstn_all. replace (length (sbytes ps) - length (sbytes ps)) with 0 by lia.
+        cbn [firstn]. rewrite app_nil_r.
+        assert (Hge : length (sbytes ps ++ sbytes s) <= length (sbytes ps) + length cando)
+          by (rewrite app_length; unfold slen in Hlc; lia).
+        rewrite (skipn_all2 _ Hge). rewrite app_nil_r. rewrite app_assoc. reflexivity. }
+      split; [exact Hcont|]. split; [|reflexivity].
+      split; cbn [segs size].
+      * unfold content at 1; cbn [segs]. rewrite Hcont. unfold overwrite.
+        rewrite !app_length, firstn_length. pose proof (skipn_length (off p + length cando) (content fn)).
+        assert (off p + length cando <= length (content fn)) by lia. lia.
+      * rewrite Hl2. apply Forall_app; split; [apply Forall_firstn; exact Hpos|].
+        constructor; [unfold slen; cbn [sbytes]; rewrite app_length; lia|apply Forall_skipn; exact Hpos].
+    + (* cur is shortened from the left *)
+      apply Nat.leb_gt in E3.
+      set (s' := slice s (length cando1) None).
+      set (l1 := set_nth l (S prev) s').
+      assert (Hn1 : nthseg l1 prev = ps).
+      { unfold l1, ps, nthseg, set_nth. rewrite app_nth1 by (rewrite firstn_length; lia).
+        apply nth_firstn_lt. lia. }
+      rewrite Hn1.
+      rewrite ptr_after_off. split; [lia|]. rewrite Hc3.
+      assert (Hl2 : set_nth l1 prev (Mem (sbytes ps ++ cando1))
+                    = firstn prev l ++ [Mem (sbytes ps ++ cando1); s'] ++ skipn (S (S prev)) l).
+      { unfold set_nth at 1. unfold l1, set_nth.
+        assert (A : firstn prev (firstn (S prev) l ++ s' :: skipn (S (S prev)) l) = firstn prev l).
+        { rewrite firstn_app. rewrite firstn_firstn. replace (Nat.min prev (S prev)) with prev by lia.
+          rewrite firstn_length. replace (prev - Nat.min (S prev) (length l)) with 0 by lia.
+          cbn [firstn]. apply app_nil_r. }
+        assert (B : skipn (S prev) (firstn (S prev) l ++ s' :: skipn (S (S prev)) l) = s' :: skipn (S (S prev)) l)
+          by (apply skipn_app_exact; rewrite firstn_length; lia).
+        rewrite A, B. reflexivity. }
+      assert (Hcont : flat_map sbytes (set_nth l1 prev (Mem (sbytes ps ++ cando1)))
+                      = overwrite (content fn) (off p) cando1).
+      { rewrite Hl2, content_splice. cbn [flat_map sbytes]. rewrite app_nil_r.
+        unfold s'. rewrite sbytes_slice_none.
+        rewrite Hoff'. rewrite (overwrite_window (content fn) (pre_len l prev) (pre_len l (S (S prev)))); try lia.
+        unfold content. fold l. rewrite HW. unfold overwrite, slen.
+        rewrite firstn_app. rewrite firstn_all. replace (length (sbytes ps) - length (sbytes ps)) with 0 by lia.
+        cbn [firstn]. rewrite app_nil_r.
+        rewrite skipn_app.
+        assert (Hge : length (sbytes ps) <= length (sbytes ps) + length cando1) by apply Nat.le_add_r.
+        rewrite (skipn_all2 (sbytes ps) Hge).
+        replace (length (sbytes ps) + length cando1 - length (sbytes ps)) with (length cando1) by lia.
+        cbn [app]. rewrite <- !app_assoc. reflexivity. }
+      split; [exact Hcont|]. split; [|reflexivity].
+      split; cbn [segs size].
+      * unfold content at 1; cbn [segs]. rewrite Hcont. unfold overwrite.
+        rewrite !app_length, firstn_length. pose proof (skipn_length (off p + length cando1) (content fn)).
+        assert (off p + length cando1 <= length (content fn)) by lia. lia.
+      * rewrite Hl2. apply Forall_app; split; [apply Forall_firstn; exact Hpos|].
+        constructor; [unfold slen; cbn [sbytes]; rewrite app_length; lia|].
+        constructor; [|apply Forall_skipn; exact Hpos].
+        unfold slen, s'. rewrite sbytes_slice_none. pose proof (skipn_length (length cando1) (sbytes s)). unfold slen in *. lia.
+Qed.
 End Branches.
